@@ -176,9 +176,60 @@ def chi2_sweep(tier, seed):
                     fails.append({'input': {'values': v, 'errors': e, 'alpha': alpha, 'ignore_empty': ignore}, 'observed': probs[:3], 'expected': 'C07 oracle'})
                     if len(fails) >= 8:
                         break
+    # other magnitudes and other number types: tiny values and errors (nothing is 'close to zero' but zero), integer-valued datasets with large
+    # differences (raw counts; int64 / int32 / Python ints, 1-d and 0-d).  Oracle in exact rational arithmetic.
+    from fractions import Fraction
+    from valjean.eponine.dataset import Dataset
+    special = []
+    tiny_v, tiny_e = [0.0, 1e-9, 3e-9, -2e-9, 1e-12], [0.0, 1e-10, 5e-9, 2e-12]
+    for _ in range(60 if tier == 'quick' else 600):
+        k = rng.choice((1, 2, 3))
+        mixed_e = tiny_e + ([1.0] if rng.random() < 0.5 else [])
+        mixed_v = tiny_v + ([1.0, 3.0] if rng.random() < 0.5 else [])
+        special.append(('float', [[rng.choice(mixed_v) for _ in range(k)] for _ in range(2)], [[rng.choice(mixed_e) for _ in range(k)] for _ in range(2)]))
+    big = {'int64': [0, 4_000_000_000, -3_500_000_000, 7, 3_037_000_500], 'int32': [0, 50_000, -46_341, 7, 2_000_000_000], 'pyint': [0, 4_000_000_000, 7]}
+    for _ in range(40 if tier == 'quick' else 400):
+        kind = rng.choice(sorted(big))
+        k = rng.choice((1, 2, 3))
+        special.append((kind, [[rng.choice(big[kind]) for _ in range(k)] for _ in range(2)], [[rng.choice([1.0e9, 1.0e4, 0.5, 0.0]) for _ in range(k)] for _ in range(2)]))
+    for kind, v, e in special:
+        for ignore in (False, True):
+            n += 1
+            k = len(v[0])
+            if kind == 'float':
+                mk = lambda vv, ee: Dataset(np.array(vv, dtype=float), np.array(ee, dtype=float))      # noqa
+            elif kind == 'pyint':
+                mk = (lambda vv, ee: Dataset(vv[0], ee[0])) if k == 1 else (lambda vv, ee: Dataset(np.array(vv), np.array(ee, dtype=float)))      # noqa
+            else:
+                mk = lambda vv, ee: Dataset(np.array(vv, dtype=kind), np.array(ee, dtype=float))      # noqa
+            if kind == 'pyint' and k == 1:
+                kk = 1
+            try:
+                r = TestChi2(mk(v[0], e[0]), mk(v[1], e[1]), name='c', alpha=0.05, ignore_empty=ignore).evaluate()
+            except Exception as ex:      # noqa
+                fails.append({'input': {'values': v, 'errors': e, 'number_type': kind, 'ignore_empty': ignore}, 'observed': f'raised {ex!r}', 'expected': 'a result'})
+                continue
+            used = [b for b in range(1 if (kind == 'pyint' and k == 1) else k) if not (ignore and e[0][b] == 0 and e[1][b] == 0)]
+            den = [Fraction(e[0][b]) ** 2 + Fraction(e[1][b]) ** 2 for b in used]
+            if any(d == 0 for d in den):
+                continue          # 0/0 or x/0: covered above with the small scope
+            stat = float(sum(Fraction(v[0][b] - v[1][b]) ** 2 / d for b, d in zip(used, den))) if used else 0.0
+            got_stat = float(np.ravel(r.chi2)[0])
+            got_ndf = int(np.ravel(r.test.ndf)[0])
+            probs = []
+            if not (math.isclose(got_stat, stat, rel_tol=1e-9, abs_tol=0.0) or (stat == 0.0 and got_stat == 0.0)):
+                probs.append(f'statistic {got_stat} != {stat}')
+            if got_ndf != len(used):
+                probs.append(f'ndf {got_ndf} != number of used bins {len(used)}')
+            p = chi2d.sf(stat, len(used)) if used else float('nan')
+            if bool(r) != bool(p > 0.05):
+                probs.append(f'verdict {bool(r)} but the probability is {p} at level 0.05')
+            if probs:
+                fails.append({'input': {'values': v, 'errors': e, 'number_type': kind, 'alpha': 0.05, 'ignore_empty': ignore}, 'observed': probs[:3], 'expected': 'C07 oracle (exact rational arithmetic)'})
     return {'name': 'chi2-native', 'evaluations': n, 'distinct': n, 'failures': fails[:8], 'exhaustive': False,
             'bound': 'seeded random datasets of 1-3 bins, 1-2 compared datasets, values / errors from the small scope (NaN and infinities only without ignore_empty), '
-                     'alpha in {0.01, 0.05, 0.5}, both settings of ignore_empty; statistic, ndf, probability decision, permutation of bins',
+                     'alpha in {0.01, 0.05, 0.5}, both settings of ignore_empty; statistic, ndf, probability decision, permutation of bins; plus tiny magnitudes '
+                     '(values ~1e-9, errors 1e-10..5e-9) and integer-valued datasets (int64 / int32 arrays, Python ints, differences up to 7.5e9) against an oracle in exact rational arithmetic',
             'samples': [{'values': [[1.0, 2.0], [1.0, 0.0]], 'errors': [[0.0, 1.0], [0.0, 1.0]], 'alpha': 0.05, 'ignore_empty': True}]}
 
 
